@@ -502,29 +502,36 @@ def appsTransmit (now : Int) (hp : Bool) : Nat → Ctx → Res × Bool
         if next = first then (.ok c, false) else appsTransmit now hp k c
       | _ => (.panic "get_use_token_data unreachable", false)
 
+/-- The hold-time bookkeeping `do_use_token` performs when it sees a new token receipt:
+`end_token_hold_time = last_token_time + TTR` (minus `Tsl + 100 bit` when a GAP poll is pending). -/
+def holdUpdate (s : Station) (d : UseData) : Station :=
+  if s.lastTokenTime ≠ d.tokenTime then
+    let e : Int := s.lastTokenTime + (s.p.ttrTime : Nat)
+    let e := match s.gap with
+      | .doPoll _ => e - (s.p.bits (s.p.slotBits + 100) : Nat)
+      | .waiting _ => e
+    { s with endTokenHoldTime := e, lastTokenTime := d.tokenTime }
+  else s
+
+/-- One message cycle attempt of `do_use_token` (`first_cycle_done = true`, then ask the applications;
+pass the token if nobody transmits). -/
+def useTokenGo (c : Ctx) (now : Int) (d : UseData) (hp : Bool) : Res :=
+  let c := upd c fun s => { s with st := .useToken d true }
+  match appsTransmit now hp c.apps.length c with
+  | (.panic s, _) => .panic s
+  | (.ok c, true) => .ok c
+  | (.ok c, false) => tr c (fun s => toPassToken s true .first) "transition_pass_token"
+
 /-- `do_use_token`. -/
 def doUseToken (c : Ctx) (now : Int) : Res :=
   match c.s.st with
   | .useToken d fcd =>
-    let c := if c.s.lastTokenTime ≠ d.tokenTime then
-        upd c fun s =>
-          let e : Int := s.lastTokenTime + (s.p.ttrTime : Nat)
-          let e := match s.gap with
-            | .doPoll _ => e - (s.p.bits (s.p.slotBits + 100) : Nat)
-            | .waiting _ => e
-          { s with endTokenHoldTime := e, lastTokenTime := d.tokenTime }
-      else c
-    let (s', waiting) := waitSyncPause c.s now
-    let c := { c with s := s' }
-    if waiting then .ok c else
-    let go (hp : Bool) : Res :=
-      let c := upd c fun s => { s with st := .useToken d true }
-      match appsTransmit now hp c.apps.length c with
-      | (.panic s, _) => .panic s
-      | (.ok c, true) => .ok c
-      | (.ok c, false) => tr c (fun s => toPassToken s true .first) "transition_pass_token"
-    if now < c.s.endTokenHoldTime then go false
-    else if !fcd then go true
+    let s1 := holdUpdate c.s d
+    let sw := waitSyncPause s1 now
+    let c := { c with s := sw.1 }
+    if sw.2 then .ok c else
+    if now < c.s.endTokenHoldTime then useTokenGo c now d false
+    else if !fcd then useTokenGo c now d true
     else tr c (fun s => toPassToken s true .first) "transition_pass_token"
   | _ => .panic "debug_assert_state!(UseToken)"
 
